@@ -300,6 +300,10 @@ CASES = [
     # a window function written inside a filter sees the order in effect
     ("from a\nsort {-x}\nfilter (row_number this) <= 2\nselect {id}\nsort id\n", [(4,), (5,)], True),
     ("from a\ngroup g (sort {-x} | filter (row_number this) <= 1)\nselect {id}\nsort id\n", [(2,), (4,), (5,)], True),
+    # a select (or derive) behind a sort leaves the order in effect: the window functions after it are ordered as without it (round-7 seed C06-14)
+    ("from a\nselect {id, x}\nsort {-x}\nselect {id, x}\nderive {r = row_number this, prev = lag 1 id}\nselect {id, r, prev}\nsort id\n",
+     sorted((r[0], i + 1, (_BYX[i - 1][0] if i else None)) for i, r in enumerate(_BYX)), True),
+    ("from a\nsort {-x}\nselect {id, y = x * 2}\nderive {r = row_number this}\nselect {id, r}\nsort id\n", sorted((r[0], i + 1) for i, r in enumerate(_BYX)), True),
     # the order of an APPENDED sub-pipeline does not replace the order in effect either (its columns are not even visible in the top pipeline)
     ("from a\nselect {id, x}\nsort {-x}\nappend (from b | select {id, v = v * 2} | sort v)\nderive {rn = row_number this}\nfilter rn <= 2\nselect {id, x}\nsort {-x}\n", None, True),
 ]
